@@ -426,6 +426,7 @@ type nameTrack struct {
 }
 
 func reloadCase(c *h.Case) {
+	begin(c)
 	if (c.Idx-baseReload)%20 == 0 {
 		staleReplyCase(c)
 		return
@@ -674,7 +675,7 @@ func reloadCase(c *h.Case) {
 					return
 				}
 				if err := svc.UpdateAllConfigurer(pcs, vcs); err != nil {
-					c.Violation("reload-refused", "UpdateAllConfigurer returned %v for a valid configuration", err)
+					viol(c, "reload-refused", "UpdateAllConfigurer returned %v for a valid configuration", err)
 					return
 				}
 			case "http":
@@ -686,7 +687,7 @@ func reloadCase(c *h.Case) {
 				body, _ := io.ReadAll(resp.Body)
 				resp.Body.Close()
 				if resp.StatusCode != 200 {
-					c.Violation("reload-refused", "GET /api/reload answered %d %q for a valid configuration file", resp.StatusCode, body)
+					viol(c, "reload-refused", "GET /api/reload answered %d %q for a valid configuration file", resp.StatusCode, body)
 					return
 				}
 			}
@@ -759,11 +760,11 @@ func settleAndJudge(c *h.Case, env *reloadEnv, g *histGen, svc *client.Service, 
 			case "not-converged-stale-proxy-registered", "not-converged-configured-proxy-missing", "registered-with-stale-configuration",
 				"configured-visitor-not-listening", "removed-visitor-still-listening", "configured-visitor-carries-no-traffic",
 				"status-api-lists-other-than-configured", "remote-port-of-removed-proxy-still-listening", "registered-proxy-carries-no-traffic-to-configured-backend":
-				c.Violation("reload-during-login-lost", "a reload was applied while the client's first login was completing; "+format+" [observed as "+key+"]", args...)
+				viol(c, "reload-during-login-lost", "a reload was applied while the client's first login was completing; "+format+" [observed as "+key+"]", args...)
 				return
 			}
 		}
-		c.Violation(key, format, args...)
+		viol(c, key, format, args...)
 	}
 	want := expectedLive(s, targetOpen)
 	var live map[string]bool
@@ -1229,12 +1230,12 @@ remotePort = %d
 		return
 	}
 	if err := cli.Svc.UpdateAllConfigurer(pcs, vcs); err != nil {
-		c.Violation("reload-refused", "UpdateAllConfigurer returned %v", err)
+		viol(c, "reload-refused", "UpdateAllConfigurer returned %v", err)
 		return
 	}
 	c.Ev("reload", "remotePort", blk[1], "while", "reply to the first NewProxy outstanding")
 	if !h.Eventually(10*time.Second, func() bool { at, _ := regCounts(name); return at >= 2 }) {
-		c.Violation("changed-entry-not-restarted", "%s changed (remotePort) while waiting for its reply: no second NewProxy reached the server", name)
+		viol(c, "changed-entry-not-restarted", "%s changed (remotePort) while waiting for its reply: no second NewProxy reached the server", name)
 		return
 	}
 	time.Sleep(1500 * time.Millisecond) // both replies are out by now
@@ -1248,7 +1249,7 @@ remotePort = %d
 		st, _ := cli.Svc.StatusExporter().GetProxyStatus(name)
 		c.Data["server_events"] = regEvents(name)
 		c.Data["phases"] = phaseHistory(name)
-		c.Violation("start-error-after-stale-reply-abandoned", "real frps, replies 400 ms late: %s was changed (remotePort %d -> %d) while the reply to its first registration was outstanding and port %d was taken at that moment. frps answered success (old request) then an error (new request). %v after the port became free the proxy is still not registered (server: %v) and the client reports status %q err %q: the old reply was taken for the new request and the start error was dropped instead of retried",
+		viol(c, "start-error-after-stale-reply-abandoned", "real frps, replies 400 ms late: %s was changed (remotePort %d -> %d) while the reply to its first registration was outstanding and port %d was taken at that moment. frps answered success (old request) then an error (new request). %v after the port became free the proxy is still not registered (server: %v) and the client reports status %q err %q: the old reply was taken for the new request and the start error was dropped instead of retried",
 			name, blk[0], blk[1], blk[1], 3*tStartErr+10*time.Second, setKeys(liveNames(pfx)), st.Phase, st.Err)
 		return
 	}
@@ -1259,11 +1260,11 @@ remotePort = %d
 			run.Inconclusive("reload: reply later than the reply timeout in the stale-reply scenario")
 			return
 		}
-		c.Violation("status-not-running-for-registered-proxy", "%s is registered at the server but the status API reports %q", name, cli.ProxyPhase(name))
+		viol(c, "status-not-running-for-registered-proxy", "%s is registered at the server but the status API reports %q", name, cli.ProxyPhase(name))
 		return
 	}
 	if id, err := h.AskIdent(fmt.Sprintf("127.0.0.1:%d", blk[1]), 10*time.Second); err != nil || id != "B0|" {
-		c.Violation("registered-proxy-carries-no-traffic-to-configured-backend", "%s on port %d answered %q / %v", name, blk[1], id, err)
+		viol(c, "registered-proxy-carries-no-traffic-to-configured-backend", "%s on port %d answered %q / %v", name, blk[1], id, err)
 		return
 	}
 	run.Count("stale_reply_real_server_cases", 1)
